@@ -135,7 +135,7 @@ fn prefix_op(cfg: &Cfg, x: f64, st: Stretch, i: usize) -> Op {
 fn check_cfg(ctx: &Ctx, cfg: &Cfg, dp: usize, stretch_len: usize) -> JobOut {
     let mut out = JobOut::default();
     let pv = prefix_values();
-    let levels = [1.0, 0.1, 0.7, 3.3, 1e6];
+    let levels = [1.0, 0.1, 0.7, 3.3, 1e6, -1.0, -3.3];
     let mut prefixes: Vec<Vec<u8>> = vec![vec![]];
     for_each_seq(pv.len(), None, dp, |s| {
         prefixes.push(s.to_vec());
@@ -144,6 +144,11 @@ fn check_cfg(ctx: &Ctx, cfg: &Cfg, dp: usize, stretch_len: usize) -> JobOut {
     for (st, w) in plan(cfg) {
         for pre in &prefixes {
             for &level in &levels {
+                // PPO divides by its slow average: a stream that changes sign drives that average through 0,
+                // which is a singularity of the formula, not a flat-window matter (C03 restricts PPO to positive prices)
+                if level < 0.0 && cfg.kind == Kind::Ppo {
+                    continue;
+                }
                 if ctx.out_of_time() {
                     out.stats.capped.push(format!("time cap in {}", cfg.descr()));
                     return out;
@@ -312,7 +317,7 @@ pub fn run(ctx: &Ctx) -> CheckResult {
     res.extra.insert("configurations".into(), json!(jobs.len()));
     res.rule = "case = (configuration, active prefix, stretch kind, flat level, step of the stretch); the real output at every step whose reference window is degenerate (min(t,w) trailing inputs flat / zero-flow) must be finite, inside the documented range, and equal the documented neutral value where one is defined; non-trivial = non-empty active prefix".into();
     res.bounds = format!(
-        "all 22 indicators, periods 1..8; every active prefix over {{2, 0.3, 1e6, 7.7, 1e9}} up to depth {} (exponential-memory kinds at periods 1..3: {}), levels {{1, 0.1, 0.7, 3.3, 1e6}}, stretch kinds scalar / one-price bar / same bar (CCI, MFI) / zero volume (MFI, OBV), every stretch length 1..{} ({} for exponential-memory kinds{}); level sweep for periods 1..3: all two-decimal prices 0.01..20.00 and 2000 log-uniform levels in [1e-3, 1e6]",
+        "all 22 indicators, periods 1..8; every active prefix over {{2, 0.3, 1e6, 7.7, 1e9}} up to depth {} (exponential-memory kinds at periods 1..3: {}), levels {{1, 0.1, 0.7, 3.3, 1e6, -1, -3.3}}, stretch kinds scalar / one-price bar / same bar (CCI, MFI) / zero volume (MFI, OBV), every stretch length 1..{} ({} for exponential-memory kinds{}); level sweep for periods 1..3: all two-decimal prices 0.01..20.00 and 2000 log-uniform levels in [1e-3, 1e6]",
         4,
         3,
         if th { 600 } else { 64 },
